@@ -259,6 +259,46 @@ def _opc():
     return OPC
 
 
+def literal_value(ctx, n: int) -> None:
+    """the VM encoding of n as the ASSEMBLER produces it for the decimal
+    literal d<n> (generic push, explicit PUSH1 / PUSH2, DIV_INT / MOD_INT
+    operands): decoding the operand gives n back"""
+    from ..ref import asm, isa
+    parsing = env.mods()[1]
+    size = (n.bit_length() + 8) // 8
+    forms = ['push d{}']
+    if size <= 255:
+        forms += ['push1 d{}', 'op_push1 d{}', 'div_int d{}', 'mod_int d{}']
+    if size <= 65535:
+        forms += ['push2 d{}']
+    for form in forms:
+        src = form.format(n)
+        ctx.evaluated()
+        ctx.tab('literal_form', form.split()[0])
+        try:
+            code = parsing.compile_script(src)
+        except BaseException as e:
+            ctx.tab('literal_rejected', type(e).__name__)
+            continue
+        try:
+            nodes = asm.disassemble(code)
+            v = nodes[0][2]
+            v = bytes([v]) if isinstance(v, int) else v
+            got = isa.int_dec(v) if len(nodes) == 1 and v else None
+        except BaseException:
+            got = None
+        if got != n:
+            ctx.violation('literal-decodes-differently', f'`{src[:60]}` is '
+                          'assembled with an operand that does not decode to '
+                          'the integer written', {'kind': 'literal',
+                                                  'n_hex': hex(n)},
+                          hex(n)[:80], code.hex()[:80])
+            return
+    if n.bit_length() > 53:
+        ctx.mark_nontrivial(dg(b'literal', hex(n).encode()))
+    ctx.count('literals_assembled_and_decoded')
+
+
 def int_value(ctx, n: int, deep: bool) -> None:
     """drive the codec on one integer (contracts judge)."""
     functions = env.mods()[0]
@@ -563,6 +603,11 @@ def run_shard(spec, ctx):
         int_value(ctx, n, True)
         if j < 600 if tier == 'quick' else j < 6000:
             big.append(n)
+            literal_value(ctx, n)
+    for k in range(i, 2049, of):
+        for d in (-1, 0, 1):
+            for sgn in (1, -1):
+                literal_value(ctx, sgn * ((1 << k) + d))
 
     # (4) all 1- and 2-byte strings (+ random longer strings)
     for u in range(i, 256, of):
@@ -639,6 +684,8 @@ def finalize(agg, tier):
                  'contract.bytes_to_float', 'contract.float_to_bytes'):
         if c.get(name, 0) == 0:
             out.append(f'contract {name} was never evaluated')
+    if c.get('literals_assembled_and_decoded', 0) < 1000:
+        out.append('fewer than 1000 decimal literals assembled and decoded')
     return out
 
 
@@ -648,6 +695,8 @@ def replay(case, ctx):
     k = case.get('kind')
     if k == 'int':
         int_value(ctx, int(case['n_hex'], 16), True)
+    elif k == 'literal':
+        literal_value(ctx, int(case['n_hex'], 16))
     elif k == 'bytes':
         bytes_value(ctx, case['b'])
     elif k == 'float':
